@@ -2135,6 +2135,9 @@ func toInt(x any) (int, bool) {
 }
 
 func toIntCeil(x any) (int, bool) {
+	if n, ok := x.(json.Number); ok {
+		x = parseNumber(n)
+	}
 	if f, ok := x.(float64); ok {
 		x = math.Ceil(f)
 	}
